@@ -966,6 +966,8 @@ class Fn:
             for i, v in enumerate(self.param_in):
                 if v is not None and v != TOP:
                     self.setval(st, (i + 1,), v)
+        for key, v in (self.prog.param_hints.get(self.key) or {}).items():
+            self.setval(st, key, v)
         return st
 
     def succ(self, st, bi, b):
@@ -1304,6 +1306,7 @@ class Program:
             if rec.get("mir") and rec["crate"] in WS_CRATES:
                 self.fns[rec["key"]] = Fn(rec, self)
         self.param_acc = {}      # callee key -> [Value per param]
+        self.param_hints = {}    # closure key -> {place key: Value} facts about parameters supplied by std (Enumerate index)
         self.collect_calls = False
         self.call_sites = {}     # callee key -> [(caller Fn, bb, argv)]
 
@@ -1354,7 +1357,36 @@ class Program:
                     stack.pop()
         return out
 
+    def enumerate_hints(self):
+        """A closure handed to a method of an `Enumerate<..>` iterator (map, for_each, try_for_each, filter_map, ...) receives `(usize, T)`
+        items whose first component counts iterations: bounded by the number of elements, like the index a `for` loop over enumerate() sees."""
+        for f in self.fns.values():
+            for bi, b in enumerate(f.blocks):
+                t = b["t"]
+                if b["cleanup"] or t["k"] != "call":
+                    continue
+                enum_recv = False
+                for ce in f.calls.get(bi, []):
+                    if ce["key"] in self.fns:
+                        continue
+                    full = ce.get("full") or ""
+                    if full.startswith("<core::iter::adapters::enumerate::Enumerate<") and " as core::iter::traits::iterator::Iterator>::" in full:
+                        enum_recv = True
+                if not enum_recv:
+                    continue
+                clos = {}
+                for s in b["s"]:
+                    if s["k"] == "assign" and s["rv"]["k"] == "agg" and s["rv"].get("ak") == "closure" and len(s["p"]) == 1:
+                        clos[s["p"][0]] = s["rv"]["closure"]
+                for a in t.get("args", [])[1:]:
+                    p = a.get("mv") or a.get("cp")
+                    if p and len(p) == 1 and p[0] in clos:
+                        g = self.fns.get(clos[p[0]])
+                        if g is not None and g.argc == 2 and g.local_ty(2).startswith("(usize, "):
+                            self.param_hints.setdefault(g.key, {})[(2, ("f", 0))] = (0, 2**63 - 1, None, True)
+
     def run(self, rounds=3):
+        self.enumerate_hints()
         order = self.order()
         entry_keys = set(e["key"] for e in self.mono["entries"])
         for rnd in range(rounds):
